@@ -131,6 +131,12 @@ class E_FinalMeta(Exception, metaclass=_FinalMeta):
   pass
 
 
+# two distinct exception classes that share module and (qual)name
+TwinA = type('TwinError', (ValueError,), {'__module__': __name__})
+TwinB = type('TwinError', (ValueError,), {'__module__': __name__})
+_twin_turn = [0]
+
+
 def make_exception(shape, tag):
   """Returns (exception instance, expectation class).
 
@@ -138,6 +144,9 @@ def make_exception(shape, tag):
   name for which the code is known to re-raise the bare original.
   """
   m = f'boom-{tag}'
+  if shape == 'Twin':
+    _twin_turn[0] += 1
+    return (TwinA if _twin_turn[0] % 2 else TwinB)(m), 'full'
   table = {
       'ValueError': lambda: (ValueError(m), 'full'),
       'KeyError': lambda: (KeyError(m), 'full'),
@@ -164,7 +173,7 @@ def make_exception(shape, tag):
 
 EXC_SHAPES = ['ValueError', 'KeyError', 'OSError', 'UnicodeDecodeError',
               'CustomInit', 'KwOnlyInit', 'StrOverride', 'Slots', 'Sub',
-              'StopIteration', 'StopAsyncIteration', 'AssertionError',
+              'StopIteration', 'StopAsyncIteration', 'AssertionError', 'Twin',
               'B_Base', 'SystemExit', 'GeneratorExit', 'KeyboardInterrupt',
               'NoSubclassHook', 'FinalMeta']
 
